@@ -4,6 +4,7 @@ import (
 	"context"
 	"errors"
 	"fmt"
+	"strconv"
 	"time"
 
 	"github.com/kercylan98/vivid"
@@ -83,7 +84,10 @@ func (s *Scheduler) Clear() {
 }
 
 func uniqueJobKey(ctx vivid.ActorContext, reference string) *quartz.JobKey {
-	jobKey := ctx.Ref().GetPath() + ":" + reference
+	// 路径与引用都可以包含 ':'，仅以 ':' 拼接时 ("/a", "b:x") 与 ("/a:b", "x") 会得到同一个键，
+	// 后注册的任务被静默丢弃、取消/清理时误删另一个 Actor 的任务；前置路径长度使键可被唯一解析
+	path := ctx.Ref().GetPath()
+	jobKey := strconv.Itoa(len(path)) + ":" + path + ":" + reference
 	return quartz.NewJobKey(jobKey)
 }
 
